@@ -4,8 +4,11 @@ set -u
 ID="$1"; PATCH="$(readlink -f "$2")"; D=$(mktemp -d /tmp/tryseed_XXXXXX)
 cp -r /repo/. "$D"/ && rm -rf "$D/.git"
 ( cd "$D" && git init -q . >/dev/null 2>&1 && git apply --whitespace=nowarn "$PATCH" ) || { echo "PATCH DOES NOT APPLY"; rm -rf "$D"; exit 3; }
-cd /verif && VERIF_REPO="$D" timeout 3000 ./check "$ID" --tier quick > "$D.out" 2>&1; rc=$?
+cd /verif && find corpus -type f | sort > "$D.corpus_before"
+VERIF_REPO="$D" timeout 3000 ./check "$ID" --tier quick > "$D.out" 2>&1; rc=$?
+# failures of the patched tree must not stay in the regression corpus
+find corpus -type f | sort | comm -13 "$D.corpus_before" - | while read f; do rm -f "$f"; done
 grep -c "^VIOLATION" "$D.out" | sed "s/^/violations: /"; grep -A1 "^VIOLATION" "$D.out" | head -6 | cut -c1-400; echo "rc=$rc"
 # restore generated tables possibly rewritten from the mutated tree
 git -C /verif checkout -- coq/Gen 2>/dev/null
-rm -rf "$D" "$D.out"
+rm -rf "$D" "$D.out" "$D.corpus_before"
